@@ -763,6 +763,10 @@ type WildTrace struct {
 	Usable   bool      `json:"usable"`
 	NewConns int       `json:"newconns"`
 	D        []WildDst `json:"d"`
+	// a request the server itself sent over a connection it opened with NewConn, answered by the peer
+	SrvAsked    bool `json:"srvAsked"`
+	SrvReqSeen  bool `json:"srvReqSeen"`
+	SrvAnswered bool `json:"srvAnswered"`
 }
 
 func runWild() WildTrace {
@@ -867,6 +871,38 @@ func runWild() WildTrace {
 		tr.D[k].Closed = closed[tr.D[k].Conn]
 	}
 	mu.Unlock()
+	// the server talks first: a connection it opens itself to peer B (NewConn) and a request on it; B answers to where the request
+	// came from. The answer belongs to that connection, whichever local addresses other peers have been talking to.
+	peerB, err := net.ListenUDP("udp4", &net.UDPAddr{IP: net.IPv4(127, 0, 0, 1)})
+	if err != nil {
+		rec.Die("listen: %v", err)
+	}
+	defer peerB.Close()
+	if cc, err := sv.NewConn(peerB.LocalAddr().(*net.UDPAddr)); err == nil {
+		tr.SrvAsked = true
+		got := make(chan bool, 1)
+		go func() {
+			ctx, cancel := context.WithTimeout(context.Background(), 1500*time.Millisecond)
+			defer cancel()
+			resp, err := cc.Get(ctx, "/from-the-server")
+			if err == nil {
+				b, _ := resp.ReadBody()
+				got <- resp.Code() == codes.Content && string(b) == "B"
+				cc.ReleaseMessage(resp)
+				return
+			}
+			got <- false
+		}()
+		buf := make([]byte, 1500)
+		_ = peerB.SetReadDeadline(time.Now().Add(1500 * time.Millisecond))
+		if k, src, err := peerB.ReadFromUDP(buf); err == nil {
+			if d, err := memnet.Parse(buf[:k]); err == nil && d.Code == int(codes.GET) {
+				tr.SrvReqSeen = true
+				_, _ = peerB.WriteToUDP(memnet.Build(message.Acknowledgement, int(codes.Content), d.MID, d.Token, nil, []byte("B")), src)
+			}
+		}
+		tr.SrvAnswered = <-got
+	}
 	return tr
 }
 
